@@ -284,6 +284,9 @@ class Interp:
         if isinstance(fn, Sym):
             raise Undecided(f"call of symbolic value {fn!r}")
         # real callables -----------------------------------------------------------------
+        for klass, handler in getattr(self, "instance_models", ()):
+            if isinstance(fn, klass):
+                return handler(self, fn, *args, **kwargs)
         try:
             model = self.models.get(fn)
         except TypeError:
